@@ -334,3 +334,75 @@ def ite_leaves(t):
     if isinstance(t, tuple) and t and t[0] == 'ite':
         return ite_leaves(t[2]) + ite_leaves(t[3])
     return [t]
+
+
+def simplify_under(t, pc):
+    """the term on the paths where every conjunct of the path condition holds: conjuncts are replaced
+    by true (their negations by false) wherever they occur as conditions inside the term"""
+    m = {}
+
+    def learn(c, val):
+        if c in (T.TRUE, T.FALSE) or not isinstance(c, tuple):
+            return
+        m[c] = T.TRUE if val else T.FALSE
+        if c[0] == 'not':
+            learn(c[1], not val)
+        elif c[0] == 'and' and val:
+            learn(c[1], True)
+            learn(c[2], True)
+        elif c[0] == 'or' and not val:
+            learn(c[1], False)
+            learn(c[2], False)
+        elif c[0] == 'truth':
+            learn(c[1], val)
+        elif c[0] == 'ite' and len(c) == 4:
+            # boolean conditional: ite(q, X, Y) holds / fails
+            q, X, Y = c[1], c[2], c[3]
+            dead_x = X == (T.FALSE if val else T.TRUE)
+            dead_y = Y == (T.FALSE if val else T.TRUE)
+            if dead_x and not dead_y:
+                learn(q, False)
+                learn(Y, val)
+            elif dead_y and not dead_x:
+                learn(q, True)
+                learn(X, val)
+        elif c[0] in ('<', '<=', '>', '>=', '==', '!=') and len(c) == 3:
+            flip = {'<': '>=', '>=': '<', '>': '<=', '<=': '>', '==': '!=', '!=': '=='}
+            mirror = {'<': '>', '>': '<', '<=': '>=', '>=': '<=', '==': '==', '!=': '!='}
+            m[(flip[c[0]], c[1], c[2])] = T.FALSE if val else T.TRUE
+            m[(mirror[c[0]], c[2], c[1])] = T.TRUE if val else T.FALSE
+            m[(flip[mirror[c[0]]], c[2], c[1])] = T.FALSE if val else T.TRUE
+    for c in pc:
+        learn(c, True)
+    prev = None
+    cur = t
+    for _ in range(4):
+        if cur == prev:
+            break
+        prev = cur
+        cur = T.subst(cur, m)
+    return cur
+
+
+def by_case(term, a, b):
+    """(term when a == b, term when a != b), whatever the spelling of the test inside the term"""
+    def under(v):
+        m = {('==', a, b): T.TRUE if v else T.FALSE, ('==', b, a): T.TRUE if v else T.FALSE,
+             ('!=', a, b): T.FALSE if v else T.TRUE, ('!=', b, a): T.FALSE if v else T.TRUE}
+        return T.subst(term, m)
+    return under(True), under(False)
+
+
+CALLBACK_MODES = ('silent', 'verbose', 'silent_and_write_chkpt', 'verbose_and_write_chkpt')
+
+
+def under_mode(term, mode_term, m):
+    """the term for callback mode m: every comparison of mode_term with an enumerator is decided"""
+    mp = {}
+    for x in CALLBACK_MODES:
+        for a, b in ((mode_term, ('enum', x)), (('enum', x), mode_term)):
+            mp[('==', a, b)] = T.TRUE if x == m else T.FALSE
+            mp[('!=', a, b)] = T.FALSE if x == m else T.TRUE
+    out = T.subst(term, mp)
+    # a switch over the mode: ('switch'...) is lowered to equality tests, nothing else to do
+    return out
